@@ -330,7 +330,7 @@ def _walk_all(it):
 _FIRST_CACHE: dict = {}
 
 
-def _order_irrelevant(xg, name: str, a: list, b: list) -> bool:
+def _order_irrelevant(xg, name: str, a: list, b: list, only=None) -> bool:
     """The alternatives of `name` are CPython's in another order.  That is behaviour-preserving when every pair that changed
     relative order is disjoint on its first token (and neither can match empty): at most one of the two can succeed."""
     from .c01 import _first_of_items
@@ -359,10 +359,13 @@ def _order_irrelevant(xg, name: str, a: list, b: list) -> bool:
     pos_b = {repr(sig): i for i, sig in enumerate(b)}
     if len(pos_b) != len(b):
         return False
-    order = [pos_b[repr(sig)] for sig in a]
-    for i in range(len(order)):
-        for j in range(i + 1, len(order)):
-            if order[i] > order[j] and overlap(firsts[i], firsts[j]):
+    if len(firsts) != len(a):
+        return False
+    idx = [i for i, sig in enumerate(a) if repr(sig) in pos_b and (only is None or repr(sig) in only)]
+    for x in range(len(idx)):
+        for y in range(x + 1, len(idx)):
+            i, j = idx[x], idx[y]
+            if pos_b[repr(a[i])] > pos_b[repr(a[j])] and overlap(firsts[i], firsts[j]):
                 return False
     return True
 
@@ -385,7 +388,41 @@ def rule_x7(chk: Check):
         chk.require(a == b, "X7-cpython-sibling", name, str(xg.rules[name].pos),
                     f"`{name}` was structurally CPython's own rule and no longer is — {cpygram.describe_diff(a, b)}: text in the Python "
                     f"lexicon is now accepted or parsed differently from CPython")
-    chk.floor("X7-cpython-sibling", 150)
+    # rules that already differ from CPython's as a whole: the alternatives they still shared with it on the pinned tree
+    by_rule: dict[str, list[int]] = {}
+    rank: dict[tuple[str, int], int] = {}
+    for name, j, i in cpygram.equal_alts():
+        by_rule.setdefault(name, []).append(j)
+        rank[(name, j)] = i
+    for name, idxs in sorted(by_rule.items()):
+        if name not in cp.rules:
+            raise AnalysisError(f"reference rule {name} missing from the vendored CPython grammar")
+        b = cpygram.rule_sig(cp.rules[name])
+        a = cpygram.rule_sig(xg.rules[name]) if name in xg.rules else None
+        for j in idxs:
+            chk.count("X7-cpython-sibling")
+            key = f"{name}#cpython-alt{j}"
+            if a is None:
+                chk.fail("X7-cpython-sibling", key, repo.GRAM_X, f"Python rule `{name}` has disappeared from the grammar")
+                continue
+            if j >= len(b):
+                raise AnalysisError(f"reference alternative {name}#{j} missing from the vendored CPython grammar")
+            chk.require(b[j] in a, "X7-cpython-sibling", key, str(xg.rules[name].pos),
+                        f"`{name}` no longer has CPython's alternative {b[j]}: an item, look-ahead or cut of it was changed, so text in the "
+                        f"Python lexicon is accepted or parsed differently from CPython")
+        # relative order of the shared alternatives (ordered choice) as on the pinned tree, unless they start with different tokens
+        if a is not None:
+            shared = sorted((j for j in idxs if b[j] in a), key=lambda j: rank[(name, j)])
+            pos = [a.index(b[j]) for j in shared]
+            chk.count("X7-cpython-sibling")
+            ok = pos == sorted(pos)
+            if not ok:
+                ref = [b[j] for j in shared]
+                ok = _order_irrelevant(xg, name, a, ref, only=set(map(repr, ref)))
+            chk.require(ok, "X7-cpython-sibling", f"{name}#order", str(xg.rules[name].pos),
+                        f"the alternatives `{name}` shares with CPython's rule are tried in a different order than before (ordered choice: "
+                        f"a different one wins)")
+    chk.floor("X7-cpython-sibling", 200)
 
 
 def rule_x8(chk: Check, ir, ix: Index):
